@@ -48,6 +48,10 @@ def scenarios(tier):
         out.append(("%s|cold|auto-unrelated" % be, be, "cold", [[("solo_a", 1)], [("solo_b", 2)]]))
         out.append(("%s|cold|nested-shared" % be, be, "cold", [[("top1", 1)], [("top2", 1)]]))
     out.append(("mem|store|nested-shared", "mem", "store", [[("top1", 1)], [("top2", 1)]]))
+    # a batch (pre-check and cache fill outside the per-call mutex) against a single call of one of its elements
+    for be in (("mem", "fs+cache-one") if tier != "thorough" else ("mem", "fs", "fs+cache-all", "fs+cache-one")):
+        out.append(("%s|cold|batch-vs-call" % be, be, "cold", [[("g", [1, 2])], [("g", 2)]]))
+    out.append(("fs+cache-one|store|batch-vs-call", "fs+cache-one", "store", [[("g", [1, 2])], [("g", 2)]]))
     if tier == "thorough":
         out.append(("fs+cache-all|store|nested-shared", "fs+cache-all", "store", [[("top1", 1)], [("top2", 1)]]))
         out.append(("mem|cold|nested-vs-inner", "mem", "cold", [[("top1", 1)], [("mid", 1)]]))
@@ -109,7 +113,7 @@ def prepare(scn):
     if warm != "cold":
         for th in calls:
             for fn, arg in th:
-                getattr(fx, fn)(arg)
+                _invoke(fx, fn, arg)
         if warm == "store" and BACKENDS[be][0] == "fs":
             b = make_backend(be, root)  # same directory, cold cache
             set_backend(b)
@@ -129,11 +133,23 @@ def cache_summary(b):
             and sorted(c.lru_deque) == sorted(c.cache) and len(set(c.lru_deque)) == len(c.lru_deque)}
 
 
+def _invoke(fx, fn, arg):
+    """arg is one argument, or a list of arguments = one call_batch over them"""
+    if isinstance(arg, list):
+        return getattr(fx, fn).call_batch([{"x": a} for a in arg])
+    return getattr(fx, fn)(arg)
+
+
+def _flat(calls):
+    """(fn, arg) pairs with batches expanded"""
+    return [(fn, a) for fn, arg in calls for a in (arg if isinstance(arg, list) else [arg])]
+
+
 def thread_body(calls):
     from ..fixtures import c09fx as fx
 
     def body():
-        return [getattr(fx, fn)(arg) for fn, arg in calls]
+        return [_invoke(fx, fn, arg) for fn, arg in calls]
 
     return body
 
@@ -198,7 +214,7 @@ def provenance(calls):
 
     seen = []
     for c in calls:
-        for fn, arg in c:
+        for fn, arg in _flat(c):
             for k in fx.closure(fn, arg):
                 if k not in seen:
                     seen.append(k)
@@ -246,12 +262,12 @@ def run_once(scn, prefix, opcodes=False, gran="full", prov=False):
             if s.exc[i] is not None:
                 bad = ("escaped-error", "thread %d: %r escaped to the caller" % (i, s.exc[i]))
                 break
-            want = [fx.expected(fn, arg) for fn, arg in c]
+            want = [fx.expected(fn, arg) if not isinstance(arg, list) else [fx.expected(fn, a) for a in arg] for fn, arg in c]
             if s.ret[i] != want:
                 bad = ("wrong-value", "thread %d got %r, expected %r" % (i, s.ret[i], want))
                 break
     if bad is None:
-        distinct = {k for c in calls for fn, arg in c for k in fx.closure(fn, arg)}
+        distinct = {k for c in calls for fn, arg in _flat(c) for k in fx.closure(fn, arg)}
         for fn, arg in sorted(distinct):
             n = sum(1 for bd in bodies if bd[0] == fn and bd[1] == arg)
             want = 0 if warm != "cold" else 1
